@@ -196,7 +196,7 @@ class Disk:
                 type_value is int
                 and -9223372036854775808 <= value <= 9223372036854775807
             )
-            or (type_value is float)
+            or (type_value is float and value == value)
         ):
             return 0, MODE_RAW, None, value
         elif type_value is bytes:
